@@ -519,10 +519,15 @@ def replay_check_level(which):
       [P[0] * P[1], P[0] * P[1], P[3] * P[4]],
       [P[0] * P[1] * P[2], P[0] * P[1], P[1] * P[5]],
       [2 * P[0] * P[6] + 1, 2 * P[0] * P[7] + 1, P[1] * P[2]],
+      # a large n-1 whose common divisor with the batch is spread over two
+      # keys that are themselves smaller than the bound
+      [2 * P[0] * P[1] * P[2] + 1, 2 * P[0] + 1, 2 * P[1] + 1, P[3] * P[4]],
+      [77771, 3233, 221, 323, 3127],
   ]
   bad = False
   for b in batches:
-    for bound in ([None] if which == 'CheckGCD' else [2, P[0], 2**60]):
+    for bound in ([None] if which == 'CheckGCD' else [
+        2, P[0], 2**60, 1000, P[0] * P[1], 4 * P[0] * P[1]]):
       keys = []
       for n in b:
         k = pb.RSAKey()
